@@ -179,4 +179,9 @@ theorem globMatchFast_eq (p k : Bytes) : globMatchFast p k = globMatch p k := by
   funext p k
   exact (globMatchFast_eq p k).symm
 
+/-- `regexpFromGlob` / `Compile` of `redis/glob/glob.go`, which `globToRegex` transcribes -/
+def globModelled : List (String × Nat × String) := [
+  ("regexpFromGlob", 8646475814872928818, "globToRegex"),
+  ("Compile", 6809646626084098421, "compile = regexp.Compile ∘ regexpFromGlob")]
+
 end GoRedis
